@@ -129,16 +129,17 @@ func read(fs filesystem.Filespace, p string, r rpath) fsx.Result {
 }
 
 type witness struct {
-	Config  config `json:"config"`
-	Part    string `json:"part"`
-	PlainN  int    `json:"plaintext_len"`
-	W       string `json:"write_path,omitempty"`
-	R       string `json:"read_path,omitempty"`
-	Other   *config `json:"other_config,omitempty"`
-	Trunc   int    `json:"truncate_to,omitempty"`
-	Pos     int    `json:"corrupt_pos,omitempty"`
-	Xor     int    `json:"corrupt_xor,omitempty"`
-	Prev    string `json:"previous_content,omitempty"`
+	Config config      `json:"config"`
+	Part   string      `json:"part"`
+	PlainN int         `json:"plaintext_len"`
+	W      string      `json:"write_path,omitempty"`
+	R      string      `json:"read_path,omitempty"`
+	Other  *config     `json:"other_config,omitempty"`
+	Trunc  int         `json:"truncate_to,omitempty"`
+	Pos    int         `json:"corrupt_pos,omitempty"`
+	Xor    int         `json:"corrupt_xor,omitempty"`
+	Prev   string      `json:"previous_content,omitempty"`
+	Handle *handleCase `json:"writer_handles,omitempty"`
 }
 
 type finding struct {
@@ -619,6 +620,17 @@ func run(c *fw.Ctx) {
 				report(f)
 			}
 		}
+		// writer handles: an earlier handle closed twice / written after Close, then two writers open together
+		// (disk base: a second Close of an in-memory stream is not answered with an error by the base)
+		if c.Mine(item) && cfg.Salt == "salt1" && cfg.Base == "disk" && cfg.Secret == "alpha" && !cfg.HostOnly {
+			for _, hc := range handleCases() {
+				c.R.Evaluations++
+				c.Count("writer_handle_cases", 1)
+				for _, f := range writerHandles(cfg, hc) {
+					report(f)
+				}
+			}
+		}
 		// part C: every truncation and every single-byte corruption (memory base only is
 		// enough for the cipher; disk base exercises the os.File reader path for truncations)
 		if cfg.Secret == "alpha" && cfg.Salt == "salt1" && !cfg.HostOnly {
@@ -768,6 +780,10 @@ func replay(w json.RawMessage) (*fw.Violation, error) {
 		if fs := sharedBuffers(wit.Config, plain); len(fs) > 0 {
 			return mkv(fs[0].kind, fs[0].clause, fs[0].detail), nil
 		}
+	case "handles":
+		if fs := writerHandles(wit.Config, *wit.Handle); len(fs) > 0 {
+			return mkv(fs[0].kind, fs[0].clause, fs[0].detail), nil
+		}
 	case "truncate", "corrupt":
 		raw := storedBytes(wit.Config, plain, find(wit.W))
 		if wit.Part == "truncate" {
@@ -790,6 +806,6 @@ func replay(w json.RawMessage) (*fw.Violation, error) {
 func init() {
 	fw.Register(&fw.Check{ID: "C05", Level: "fault_enumeration",
 		Rule: "configurations = cipher{raw AES-GCM, tagged} x base{memory, disk} x secret{alpha,beta,''} x salt{salt1,salt2,''} x host-binding{off,on}; plaintexts of length {0,1,16,17,4096,70000,(thorough: 15,33,140001)}; write path {WriteFile, Writer 1/3 chunks} x previous content {absent, shorter, longer} x read path {ReadFile, Reader buf 1/7/4096}, every case also across a child view (parent writes / child reads, child writes / parent and an independent same-settings filespace read); every other (secret,salt) of the pool plus one concatenation-colliding pair, and 7 settings with long key material (64- and 100-byte common prefixes of secret||salt; other salt, no salt, other tail) read pairwise; two filespaces built from one caller-owned secret buffer with spare capacity and different salts, and the caller wiping its buffers afterwards; EVERY truncation length 0..N-1 (also of the 70 KB / 140 KB files on the whole-file paths; the other paths of long files: every length near both ends, every 97th between) and EVERY single-byte corruption (N positions x 255 values for short files; 3 values and strided interior positions for files > 300 bytes) of the stored bytes, each read on a fresh base; two filespaces (different secrets) x two files each written in alternation over all plaintext pairs x write-path pairs; name-space ops in lock-step with the tree model; plus 2-3 filespaces with different (and equal) secrets used from concurrent goroutines (write then read own file, then try every other tenant's secret on it) under every schedule with <= 2 (quick) / 3 (thorough) preemptions, with the race oracle on the encryptfs packages. distinct = cases, all non-trivial (each runs the real cipher)",
-		Run: run, Replay: replay,
+		Run:  run, Replay: replay,
 		Assumptions: []string{"crypto/rand.Reader is replaced by a deterministic never-repeating stream (nonce freshness stays observable)", "cryptographic strength is out of scope; host binding is exercised but a binding mismatch is not required to fail (the statement does not demand it)", "secrecy = stored bytes do not contain the plaintext (>= 8 bytes) nor its first 16 bytes"}})
 }
